@@ -30,11 +30,13 @@ def impls_by_cp(run):
 
 def run(tier, seed):
     ctx = core.Ctx("C06", tier, seed, LEVEL)
-    r = core.tlc("MC_C15", "MC_C06_q", workers=12, timeout=3000)
-    if not r.ok:
-        raise core.ToolError("MC_C15/MC_C06_q: ProjectionKeepsValidity violated on the specification, or TLC error:\n" + r.stdout[-3000:])
-    ctx.add_tlc(r)
-    cases = [c for c in r.cases if not c["faults"]]
+    cases = []
+    for cfg in (["MC_C06_q"] if tier == "quick" else ["MC_C06_q", "MC_C06_t"]):          # _t: two members with one instruction each
+        r = core.tlc("MC_C15", cfg, workers=12, timeout=3000)
+        if not r.ok:
+            raise core.ToolError(f"MC_C15/{cfg}: ProjectionKeepsValidity violated on the specification, or TLC error:\n" + r.stdout[-3000:])
+        ctx.add_tlc(r)
+        cases += [c for c in r.cases if not c["faults"]]
     inp = [{"id": i, "srcs": [c15.concretize(c["in"], True), c15.concretize(c["pa"], True), c15.concretize(c["pb"], True)]} for i, c in enumerate(cases)]
     res = core.expand(inp, "syn1", tokens=True)
     trace, detail, vd, skipped = [], {}, {}, {}
